@@ -254,9 +254,14 @@ func judge15(e *Entry, ops []Op, res []*OpResult, evs [][]sched.Event) (sig, det
 			m.overrideService(op.Name, op.VI, op.Scope)
 			stats["overrides"]++
 		case "GetParam":
+			if m.lost {
+				stats["not-judged-(model-lost-track-after-a-scoped-override)"]++
+				continue
+			}
 			v, taint, err := m.param(op.Name)
 			if taint {
 				stats["not-judged-(constructed-before-an-override)"]++
+				m.armedUnknown = true
 				continue
 			}
 			if err != nil {
@@ -291,10 +296,15 @@ func judge15(e *Entry, ops []Op, res []*OpResult, evs [][]sched.Event) (sig, det
 			}
 			stats["values-checked"]++
 		case "Get", "Getter":
+			if m.lost {
+				stats["not-judged-(model-lost-track-after-a-scoped-override)"]++
+				continue
+			}
 			m.beginTree()
 			n, taint, err := m.service(op.Name)
 			if taint {
 				stats["not-judged-(constructed-before-an-override)"]++
+				m.armedUnknown = true
 				continue
 			}
 			if err != nil {
